@@ -30,6 +30,7 @@ ASSUMPTIONS = [
     '"stably sorted by the keys" means the stable order under pyg_base.cmp on the key tuples (C07 checks cmp and dictable.sort); the oracle does not hard-code the order between types',
     'listby() with no argument is checked on the NaN-free columns a, b, c only (by = all columns, so f would be a NaN key); groupby() on all columns raises by design and is not called',
     'ungroup() of the groupby of an EMPTY table is only required to have no rows (its columns are not compared)',
+    'x is passed to xyz as a str, a list or a tuple of names, to unpivot as a str or a list only (its documented forms; a tuple is not subtracted from the columns there)',
     'pivot with agg=None holds the list of z values in original row order; aggregators are applied to that list in the listed order',
 ]
 
@@ -42,7 +43,8 @@ ALL = ['a', 'b', 'c', 'f']
 
 KEYSETS = [('a',), ('b',), ('c',), ('a', 'b'), ('b', 'a'), ('a', 'c'), ('c', 'a'), ('b', 'c'), ('c', 'b'), ('a', 'b', 'c'), ('c', 'b', 'a')]
 LIST_SPELLED = [('a',), ('a', 'b'), ('b', 'a'), ('c', 'b', 'a')]
-CHOICES = [(k, 'args') for k in KEYSETS] + [(k, 'list') for k in LIST_SPELLED]
+CHOICES = [(k, 'args') for k in KEYSETS] + [(k, 'list') for k in LIST_SPELLED]          # family 'one'
+CHOICES_TWO = [(('a', 'b'), 'args'), (('b', 'a'), 'list'), (('a',), 'args'), (('b',), 'list')]    # family 'two' (keys holding the row id c are all-distinct: family 'one' has them)
 
 
 # ------------------------------------------------------------------------------------------------ helpers
@@ -215,7 +217,7 @@ def check_regroup(case):
 
     orders = {}
 
-    for key, spelling in CHOICES:
+    for key, spelling in (CHOICES if case['t'] == 'one' else CHOICES_TWO):
         out.sub()
         nonkey = [k for k in ALL if k not in key]
         arg = '*%r' % (key,) if spelling == 'args' else repr(list(key))
@@ -255,7 +257,7 @@ def check_regroup(case):
         except Exception as e:
             out.viol('listby-raised', 'listby(%s) on %s raised %s: %s' % (arg, tdesc, type(e).__name__, e), op='listby', **sig)
         if L is not None:
-            _check_listby(out, L, d, key, nonkey, arg, tdesc, sig, cols, rows, groups, order, n, spelling, call)
+            _check_listby(out, L, d, key, nonkey, arg, tdesc, sig, cols, rows, groups, order, n, spelling == 'args' and case['t'] == 'one', call)
 
         # ---------------------------------------------------------------- groupby / ungroup
         G = None
@@ -298,7 +300,7 @@ def check_regroup(case):
             continue
         if set(kt) != set(names) or len(rt) != n or not all(_row_eq(g, e) for g, e in zip(rt, expect)):
             out.viol('listby-noarg-wrong', '%s on %s (by = all columns %s; every row is its own key): expected rows in c-order %s, got columns %s c=%s'
-                     % (what, tdesc, key, order, kt, show(list(t['c']) if 'c' in kt else None)), op=what, nkeys=0, spelling='none')
+                     % (what, tdesc, key, order, kt, show([r.get('c') for r in rt])), op=what, nkeys=0, spelling='none')
     if not _unchanged(d3, snap):
         out.viol('operand-mutated', 'listby() changed the table %s it was called on' % tdesc, op='listby', nkeys=0, spelling='none')
     if n > 1:
@@ -306,7 +308,7 @@ def check_regroup(case):
     return out
 
 
-def _check_listby(out, L, d, key, nonkey, arg, tdesc, sig, cols, rows, groups, order, n, spelling, call):
+def _check_listby(out, L, d, key, nonkey, arg, tdesc, sig, cols, rows, groups, order, n, with_sort, call):
     try:
         kl, rl = _rows(L)
     except Exception as e:
@@ -359,7 +361,7 @@ def _check_listby(out, L, d, key, nonkey, arg, tdesc, sig, cols, rows, groups, o
         out.viol('unlist-not-sorted-original', 'listby(%s).unlist() on %s: expected the original rows stably sorted by the key, c-order %s; got columns %s rows %s'
                  % (arg, tdesc, order, ku, show(ru, 500)), op='unlist', **sig)
         return
-    if spelling == 'args':
+    if with_sort:
         try:
             S = call(d, 'sort')
             out.call()
@@ -448,7 +450,11 @@ def _last(v):
 
 
 AGGS = {'none': None, 'last': _last, 'sum': sum, 'len': len, 'sorted+last': [sorted, _last]}
-COMBOS = [('c', 'none'), ('c', 'last'), ('c', 'sum'), ('c', 'len'), ('c', 'sorted+last'), ('f', 'none'), ('f', 'last'), ('f', 'len')]
+ZAGG = [('c', 'none'), ('c', 'last'), ('c', 'sum'), ('c', 'len'), ('c', 'sorted+last'), ('f', 'none'), ('f', 'last'), ('f', 'len')]
+# (y column, z column, agg): family x1 runs the whole menu on the string-valued y and three entries on the int-valued y (the labelling
+# of y does not depend on agg); family x2 (the same code after the key tuple is built) runs five
+COMBOS_X1 = [('ys', z, g) for z, g in ZAGG] + [('yi', 'c', 'none'), ('yi', 'c', 'last'), ('yi', 'f', 'last')]
+COMBOS_X2 = [('ys', 'c', 'none'), ('ys', 'c', 'last'), ('ys', 'c', 'sum'), ('ys', 'f', 'last'), ('yi', 'c', 'last')]
 
 
 def gen_pivots(rows_x1, rows_x2, wide):
@@ -480,9 +486,10 @@ def check_pivot(case):
     def build():
         return dictable(**{k: list(v) for k, v in cols.items()})
 
-    for ci, (ycol, (zcol, aggname)) in enumerate(itertools.product(['ys', 'yi'], COMBOS)):
+    for ci, (ycol, zcol, aggname) in enumerate(COMBOS_X1 if case['x'] == 'a' else COMBOS_X2):
         out.sub()
         xarg, xname = xspellings[ci % len(xspellings)]
+        xlist = list(xarg) if isinstance(xarg, tuple) else xarg          # unpivot documents "str / list of strings"
         agg = AGGS[aggname]
         method = 'pivot' if zcol == 'f' else 'xyz'
         label = "%s(%s, '%s', '%s', %s) on %s" % (method, xname, ycol, zcol, aggname, tdesc)
@@ -515,7 +522,10 @@ def check_pivot(case):
             out.call()
             kp, rp = _rows(P)
         except Exception as e:
-            out.viol('pivot-raised', '%s raised %s: %s' % (label, type(e).__name__, e), op='xyz', empty=n == 0, **sig)
+            if n == 0:          # one signature for the empty table, whatever x / agg
+                out.viol('pivot-raised', '%s raised %s: %s (expected: a pivot table with no rows)' % (label, type(e).__name__, e), op='xyz', empty=True)
+            else:
+                out.viol('pivot-raised', '%s raised %s: %s' % (label, type(e).__name__, e), op='xyz', empty=False, **sig)
             continue
         if not _unchanged(d, snap):
             out.viol('operand-mutated', '%s changed the table it was called on' % label, op='xyz', **sig)
@@ -559,7 +569,7 @@ def check_pivot(case):
         # ---- unpivot, then drop the rows whose z is None
         snapP = _snap(P)
         try:
-            U = P.unpivot(xarg, ycol, zcol)
+            U = P.unpivot(xlist, ycol, zcol)
             out.call()
             ku, ru = _rows(U)
         except Exception as e:
@@ -578,8 +588,8 @@ def check_pivot(case):
             continue
         got = [r for r in ru if r.get(zcol) is not None]
         if not _multiset_eq(got, want):
-            out.viol('unpivot-not-original', '%s then unpivot(%s, %r, %r) minus None-z rows: expected the rows %s (any order), got %s'
-                     % (label, xname, ycol, zcol, show(want, 500), show(got, 500)), op='unpivot', **sig)
+            out.viol('unpivot-not-original', '%s then unpivot(%r, %r, %r) minus None-z rows: expected the rows %s (any order), got %s'
+                     % (label, xlist, ycol, zcol, show(want, 500), show(got, 500)), op='unpivot', **sig)
     return out
 
 
@@ -599,6 +609,6 @@ def suites(tier, seed):
         Suite('pivot', lambda: gen_pivots(p1, p2, thorough), check_pivot,
               rule="all tables of <= %d rows with x='a' ((a, y) over %s x 2 y values per row) and of <= %d rows with x=('a','b') ((a, b, y) over %s x %s x 2); "
                    "y a string-valued / an int-valued column; (z, agg) in %s; xyz/pivot then unpivot; non-trivial = an (x, y) cell aggregating >= 2 rows or an "
-                   "empty cell" % (p1, PA, p2, PA if thorough else PA[:2], PB, COMBOS),
-              bounds=dict(max_rows_x1=p1, max_rows_x2=p2, x2_a_values=3 if thorough else 2, combos=2 * len(COMBOS))),
+                   "empty cell" % (p1, PA, p2, PA if thorough else PA[:2], PB, ZAGG),
+              bounds=dict(max_rows_x1=p1, max_rows_x2=p2, x2_a_values=3 if thorough else 2, combos_x1=len(COMBOS_X1), combos_x2=len(COMBOS_X2))),
     ]
